@@ -19,35 +19,54 @@ def msgDigest (sha256 : Bytes → Bytes) (magic msg : Bytes) : Bytes := sha256 (
 def ecdsaVerifyDigest (Q : Nat × Nat) (z r s : Nat) : Except PyErr Bool :=
   if ecdsaVerify (some Q) z r s then .ok true else .error .other
 
+/-- root selection of `verify_message`: `y_values[0]` if its parity matches the recovery id, else `y_values[1]`
+(either index raises IndexError when sympy returned too few roots) -/
+def pickRoot (ys : List Nat) (recid : Nat) : Except PyErr Nat :=
+  match ys.head? with
+  | none => .error .indexError
+  | some y0 =>
+    if (y0 + recid) % 2 = 0 then .ok y0
+    else match ys[1]? with
+      | some y1 => .ok y1
+      | none => .error .indexError
+
+/-- `verify_message` statement by statement, in if/match form, with the arithmetic primitives as parameters (so that
+proofs about the control flow never make the kernel evaluate curve arithmetic) -/
+def verifyN (sq : Nat → List Nat) (oc : Point → Bool) (mulF : Point → Nat → Point) (addF : Point → Point → Point)
+    (g : Point) (inv : Nat → Nat) (verD : Nat × Nat → Nat → Nat → Nat → Except PyErr Bool) (nn pp : Nat)
+    (z : Nat) (addrOf : Nat × Nat → Bool → String) (address : String) (sig : Bytes) : Except PyErr Bool :=
+  if sig.length ≠ 65 then .error .valueError                     -- len(signature) != 65
+  else
+    let h := (sig.getD 0 0).toNat
+    if h < 27 ∨ h > 35 then .ok false                            -- prefix outside the header window
+    else
+      let recid := if h ≥ 31 then h - 31 else h - 27             -- compressed flag / recovery id
+      let r := ofBE ((sig.drop 1).take 32)
+      let s := ofBE ((sig.drop 33).take 32)
+      let x := r + (recid / 2) * nn
+      -- sqrt_mod((x^3+7) % p, p, True); y_values[0] raises IndexError when there is no root
+      match pickRoot (sq ((x ^ 3 + 7) % pp)) recid with
+      | .error e => .error e
+      | .ok y =>
+        -- ellipticcurve.Point(curve, x, y, order) asserts the point is on the curve
+        if oc (some (x % pp, y)) = false then .error .assertion
+        else if r % nn = 0 then .error .other                    -- inverse_mod(0, n)
+        else
+          -- Q = r^-1 (s R - z G)
+          match mulF (addF (mulF (some (x % pp, y)) s) (mulF g ((nn - z % nn) % nn))) (inv (r % nn)) with
+          | none => .error .other                                -- from_public_point(INFINITY)
+          | some q =>
+            match verD q z r s with
+            | .error e => .error e
+            | .ok v =>
+              if v = false then .ok false
+              else if addrOf q (decide (h ≥ 31)) = address then .ok true else .ok false
+
 /-- `PublicKey.verify_message(address, signature, message)`; `sig` = the base64-decoded bytes,
 `addrOf Q compressed` = the P2PKH address string of key Q -/
 def verifyMessage (sha256 : Bytes → Bytes) (magic : Bytes) (addrOf : Nat × Nat → Bool → String)
-    (address : String) (sig : Bytes) (msg : Bytes) : Except PyErr Bool := do
-  if sig.length ≠ 65 then throw PyErr.valueError
-  let prefix_ := (sig.getD 0 0).toNat
-  if prefix_ < 27 ∨ prefix_ > 35 then return false
-  let compressed := prefix_ ≥ 31
-  let recid := if compressed then prefix_ - 31 else prefix_ - 27
-  let z := ofBE (msgDigest sha256 magic msg)
-  let r := ofBE ((sig.drop 1).take 32)
-  let s := ofBE ((sig.drop 33).take 32)
-  let x := r + (recid / 2) * n
-  -- sqrt_mod((x^3+7) % p, p, True); y_values[0] raises IndexError when there is no root
-  let ys := sqrtAll ((x ^ 3 + 7) % p)
-  let some y0 := ys.head? | throw PyErr.indexError
-  let y ← if (y0 + recid) % 2 = 0 then pure y0 else (match ys[1]? with | some y1 => pure y1 | none => throw PyErr.indexError)
-  -- ellipticcurve.Point(curve, x, y, order) asserts the point is on the curve
-  if !(onCurve (some (x % p, y)) ) then throw PyErr.assertion
-  if r % n = 0 then throw PyErr.other          -- inverse_mod(0, n)
-  let R : Point := some (x % p, y)
-  let minusE := (n - z % n) % n
-  let invR := invN (r % n)
-  let Q := mul (add (mul R s) (mul G minusE)) invR
-  let some q := Q | throw PyErr.other          -- from_public_point(INFINITY)
-  let ok ← ecdsaVerifyDigest q z r s
-  if !ok then return false
-  if addrOf q compressed ≠ address then return false
-  return true
+    (address : String) (sig : Bytes) (msg : Bytes) : Except PyErr Bool :=
+  verifyN sqrtAll onCurve mul add G invN ecdsaVerifyDigest n p (ofBE (msgDigest sha256 magic msg)) addrOf address sig
 
 /-- the header search of `sign_message`: tries 27..30 (+4 if compressed) and returns the first header that
 verifies against the signer's own address (a ValueError from verify_message is skipped) -/
